@@ -496,3 +496,343 @@ def discharge_all(obligations, timeout_ms=20000, procs=14, seed=0, both=False):
 
 
 _SV.discharge_all = discharge_all
+
+
+# ---------------------------------------------------------------------------
+# 6. small integer primitives met in the elliptic-curve code (added for the C14 strengthening)
+#    a. x ** n with a concrete exponent 0 <= n <= 8: the n-fold product (exact)
+#    b. pow(b, -1, m): CPython raises ValueError("base is not invertible for the given modulus") when b has no
+#       inverse modulo m, else returns the inverse r, 0 <= r < |m| (m > 0 here).  The model forks both outcomes
+#       and over-approximates the value: *some* r in 0..m-1 (the congruence r*b == 1 (mod m) is dropped: 256-bit
+#       non-linear arithmetic; more behaviours than the real function has, never fewer).  Other uses of the
+#       three-argument pow are Unsupported.
+#    c. secrets.randbelow(n): ValueError for n <= 0, else any integer in 0..n-1
+# ---------------------------------------------------------------------------
+_prev_int_binop = M.int_binop
+
+
+def int_binop3(ex, op, a, b):
+    if type(op) is ast.Pow and isinstance(a, Sym) and isinstance(b, int) and not isinstance(b, bool) and 0 <= b <= 8:
+        r = 1
+        for _ in range(b):
+            r = _prev_int_binop(ex, ast.Mult(), r, a) if not (isinstance(r, int) and r == 1) else a
+        return r
+    return _prev_int_binop(ex, op, a, b)
+
+
+M.int_binop = int_binop3
+
+from . import models_calls as _MC  # noqa: E402
+from .engine import mk_bool  # noqa: E402
+
+
+def m_pow(ex, base, exp, mod=None):
+    base, exp, mod = M.plain(base), M.plain(exp), M.plain(mod)
+    if mod is None:
+        return M.binop(ex, ast.Pow(), base, exp)
+    if ex.is_conc(base) and ex.is_conc(exp) and ex.is_conc(mod):
+        try:
+            return pow(base, exp, mod)
+        except Exception as e:  # noqa: BLE001
+            from .engine import PyExc
+
+            raise PyExc(e)
+    if not (isinstance(exp, int) and exp == -1 and isinstance(mod, int) and not isinstance(mod, bool) and mod > 1):
+        raise Unsupported('three-argument pow other than pow(b, -1, m) with a constant modulus m > 1')
+    if ex.kind_of(base) != 'int':
+        raise Unsupported('pow of a non-integer')
+    if ex.decide([True, True], 'pow(b, -1, m): invertible / not invertible') == 1:
+        ex.raise_(ValueError, 'base is not invertible for the given modulus')
+    r = ex.fresh_sym('int', 'modinv')
+    ex.add_def(z3.And(r.t >= 0, r.t < mod))
+    M.mark_range(ex, r.t, 0, mod - 1)
+    return r
+
+
+_MC.NATIVE_MODELS[pow] = m_pow
+
+import secrets as _secrets  # noqa: E402
+
+
+def m_randbelow(ex, n):
+    n = M.plain(n)
+    if ex.kind_of(n) != 'int':
+        raise Unsupported('secrets.randbelow of a non-integer')
+    if isinstance(n, int):
+        if n <= 0:
+            ex.raise_(ValueError, 'Upper bound must be positive.')
+    elif not ex.branch(mk_bool(zint(n) > 0)):
+        ex.raise_(ValueError, 'Upper bound must be positive.')
+    r = ex.fresh_sym('int', 'randbelow')
+    ex.add_def(z3.And(r.t >= 0, r.t < zint(n)))
+    if isinstance(n, int):
+        M.mark_range(ex, r.t, 0, n - 1)
+    return r
+
+
+_MC.NATIVE_MODELS[_secrets.randbelow] = m_randbelow
+
+
+# ---------------------------------------------------------------------------
+# 7. `RecListOf(T)`: an immutable list of *symbolic length* whose elements are records that are FUNCTIONS OF
+#    THE INDEX (added for the C14 strengthening: AddressResolver.resolving_keys, a list of (irk, Address)).
+#    Every scalar leaf of the element type (an Int, a Bool, each byte of a BytesN) is an uninterpreted function
+#    Int -> Int of the index, so `xs[i]` and `xs[j]` are equal whenever i == j, a `for` loop (invariant rule, index
+#    `_i`) hands out `xs[_i]`, and clauses can quantify over the elements (`forall(0, len(xs), lambda j: p(xs[j]))`).
+#    The type invariants of the leaves (byte / IntRange bounds) are stated for every index an element is built for.
+#    This is exact for any real list of immutable values of that shape (its elements ARE a function of the index);
+#    object identity of the records is not modelled (each access builds a new object: value semantics only) and
+#    writing to the list (append, item assignment, ...) is Unsupported.  Replay: the first min(len, 32) elements
+#    under the counter-model.
+# ---------------------------------------------------------------------------
+from .values import ExtObj, Obj  # noqa: E402
+
+
+class RecListOf(_C.ExtT):
+    def __init__(self, t):
+        self.t = t
+
+    def __repr__(self):
+        return f'RecListOf({self.t!r})'
+
+    def fresh(self, cfg, path, hint):
+        n = path.fresh_sym('int', hint + '.len')
+        path.add_def(n.t >= 0)
+        return path.alloc(RecList(self.t, n, path.fresh_name(hint)))
+
+
+_REC_FUNCS = {}
+
+
+def _rec_fn(uid, leaf, bool_valued=False):
+    key = (uid, leaf, bool_valued)
+    f = _REC_FUNCS.get(key)
+    if f is None:
+        f = _REC_FUNCS[key] = z3.Function(f'{uid}.{leaf}', z3.IntSort(), z3.BoolSort() if bool_valued else z3.IntSort())
+    return f
+
+
+class RecList(ExtObj):
+    def __init__(self, elem_t, n, uid):
+        self.elem_t, self.n, self.uid = elem_t, n, uid
+
+    def clone(self):
+        return RecList(self.elem_t, self.n, self.uid)
+
+    def __repr__(self):
+        return f'RecList({self.elem_t!r}, len={self.n}, {self.uid})'
+
+    # -- element at index term `idx` (z3 Int): engine value; `ex` None -> description with Sym leaves (replay)
+    def _build(self, ex, t, idx, leaf):
+        if t is _C.Int or isinstance(t, _C.IntRange):
+            v = _rec_fn(self.uid, leaf)(idx)
+            if isinstance(t, _C.IntRange) and ex is not None:
+                ex.add_def(z3.And(v >= t.lo, v <= t.hi))
+                if not ex.quant:
+                    M.mark_range(ex, v, t.lo, t.hi)
+            return Sym(v, 'int')
+        if t is _C.Bool:
+            return Sym(_rec_fn(self.uid, leaf, True)(idx), 'bool')
+        if isinstance(t, _C.BytesN):
+            if t.n == 0:
+                return b''
+            units = []
+            for j in range(t.n):
+                b = _rec_fn(self.uid, f'{leaf}[{j}]')(idx)
+                if ex is not None:
+                    ex.add_def(z3.And(b >= 0, b <= 255))
+                    if not ex.quant:
+                        M.mark_byte(ex, b)
+                units.append(z3.Unit(b))
+            return Sym(units[0] if len(units) == 1 else z3.Concat(*units), 'bytes')
+        if isinstance(t, _C.TupleOf):
+            return tuple(self._build(ex, x, idx, f'{leaf}.{i}') for i, x in enumerate(t.ts))
+        if isinstance(t, _C.Inst):
+            reg = (ex.cfg.reg if ex is not None else _C.REG)
+            mdl = reg.models.get(t.name)
+            if mdl is None:
+                raise Unsupported(f'no class model {t.name}')
+            fields = {fn: self._build(ex, t.overrides.get(fn, ft), idx, f'{leaf}.{fn}') for fn, ft in mdl.fields.items()}
+            if ex is None:
+                return {'__frozen__': mdl.name, 'fields': fields}
+            return ex.alloc(Obj(_V.resolve_class(t.name), fields, mdl))
+        raise Unsupported(f'RecListOf: element type {t!r} (Int, IntRange, Bool, BytesN, TupleOf, Inst of such fields)')
+
+    def _elem_at(self, ex, idx):
+        ex.abstraction_used = ex.abstraction_used  # (exact: no abstraction)
+        return self._build(ex, self.elem_t, z3.simplify(zint(idx)), 'e')
+
+    def ext_model(self, conc):
+        n = conc(self.n) if isinstance(self.n, Sym) else self.n
+        n = n if isinstance(n, int) else 0
+
+        def thaw(d):
+            if isinstance(d, dict) and '__frozen__' in d:
+                return {'__obj__': d['__frozen__'], 'fields': {k: thaw(x) for k, x in d['fields'].items()}}
+            if isinstance(d, tuple):
+                return tuple(thaw(x) for x in d)
+            return conc(d)
+
+        return {'__list__': [thaw(self._build(None, self.elem_t, z3.IntVal(j), 'e')) for j in range(max(0, min(n, 32)))], 'flavor': 'list'}
+
+    def ext_truth(self, ex, ref):
+        return ex.compare_op(ast.Gt(), self.n, 0)
+
+    def ext_len(self, ex, ref):
+        return self.n
+
+    def ext_havoc(self, ex, ref, hint):
+        n = ex.fresh_sym('int', hint + '.len')
+        ex.add_def(n.t >= 0)
+        self.n, self.uid = n, ex.fresh_name(hint)
+
+    def ext_unchanged(self, ex, other):
+        return isinstance(other, RecList) and other.n is self.n and other.uid == self.uid
+
+    def ext_method(self, ex, ref, name, args, kwargs):
+        raise Unsupported(f'method {name} of a list of records of symbolic length')
+
+    def ext_subscript(self, ex, ref, i):
+        i = M.plain(i)
+        if not M.is_intlike(ex, i):
+            raise Unsupported('slice / non-integer index into a list of records of symbolic length')
+        if ex.spec_mode:
+            return self._elem_at(ex, i)  # clauses: indexing is total (the clause guards the index)
+        n, it = zint(self.n), zint(i)
+        if not ex.branch(mk_bool(z3.And(it >= -n, it < n))):
+            ex.raise_(IndexError, 'list index out of range')
+        return self._elem_at(ex, mk_int(z3.If(it < 0, it + n, it)))
+
+    def ext_for(self, ex, ref, s, spec):
+        if spec is None:
+            raise Unsupported(f'for loop over a list of records of symbolic length without invariant at {ex.cur_loc}')
+        itname = '_i'
+        ex.store_name(itname, 0)
+
+        def test():
+            return ex.compare_op(ast.Lt(), ex.lookup(itname), ex.obj(ref).n)
+
+        def pre_body():
+            ex.assign(s.target, ex.obj(ref)._elem_at(ex, ex.lookup(itname)))
+
+        def stepf():
+            ex.store_name(itname, ex.binop(ast.Add(), ex.lookup(itname), 1))
+
+        ex.cut_loop(s, spec, test, pre_body, (itname,), stepf)
+
+
+# ---------------------------------------------------------------------------
+# 8. str(obj) of an object whose class defines __str__ calls that method (CPython: type(obj).__str__(obj)) instead
+#    of yielding an anonymous opaque string; and "tagged texts": opaque strings that remember which values they
+#    were formatted from, so that a contract of a formatting function and a contract of the matching parsing
+#    function can be stated (`tagged_text(tag, *values)` / `text_tag(s)` / `text_value(s, i)`); the *content* of
+#    the string stays outside the value domain.
+# ---------------------------------------------------------------------------
+from .values import OpaqueStr  # noqa: E402
+
+
+class TaggedText(OpaqueStr):
+    def __init__(self, tag, values):
+        self.tag, self.values = tag, tuple(values)
+
+    def __repr__(self):
+        return f'TaggedText({self.tag})'
+
+
+_orig_m_str = _MC.CLASS_MODELS[str]
+
+
+def m_str(ex, *args):
+    if len(args) == 1 and isinstance(args[0], Ref) and isinstance(ex.obj(args[0]), Obj) and ex.obj(args[0]).cls is not None:
+        cls = ex.obj(args[0]).cls
+        if '__str__' in {k for c in cls.__mro__ if c is not object for k in c.__dict__}:
+            return ex.call(ex.getattr(args[0], '__str__'), [], {})
+    return _orig_m_str(ex, *args)
+
+
+_MC.CLASS_MODELS[str] = m_str
+
+TEXT_FORMATS = {}  # tag -> (format(*values) -> str, parse(str) -> tuple of values): the native meaning
+
+
+def tagged_text(tag, *values):
+    return TEXT_FORMATS[tag][0](*values)
+
+
+def text_tag(s):
+    """the tag of a tagged text, else None (natively: the first registered format that parses the string)"""
+    for tag, (_fmt, parse) in TEXT_FORMATS.items():
+        try:
+            if parse(s) is not None:
+                return tag
+        except Exception:  # noqa: BLE001
+            continue
+    return None
+
+
+def text_value(s, i):
+    return TEXT_FORMATS[text_tag(s)][1](s)[i]
+
+
+def _q_tagged_text(ex, args, kwargs):
+    return TaggedText(M.plain(args[0]), [M.plain(a) for a in args[1:]])
+
+
+def _q_text_tag(ex, args, kwargs):
+    s = M.plain(args[0])
+    return s.tag if isinstance(s, TaggedText) else None
+
+
+def _q_text_value(ex, args, kwargs):
+    s, i = M.plain(args[0]), M.plain(args[1])
+    if not isinstance(s, TaggedText) or not isinstance(i, int):
+        raise Unsupported('text_value of a string that is not a tagged text')
+    return s.values[i]
+
+
+_S.SPEC_FORMS[tagged_text] = _q_tagged_text
+_S.SPEC_FORMS[text_tag] = _q_text_tag
+_S.SPEC_FORMS[text_value] = _q_text_value
+
+
+# ---------------------------------------------------------------------------
+# 9. two more integer primitives (so that a size-dependent byte encoding of a big integer is *refuted* rather than
+#    reported unsupported):
+#    a. x.bit_length() of a symbolic integer the path condition bounds by |x| < 2**K, K <= 512: the number of
+#       k in 0..K-1 with 2**k <= |x| (exact)
+#    b. x.to_bytes(L, order) with a symbolic length the path condition bounds by 0 <= L <= 64: case split on L
+#       (one path per feasible value; each then uses the concrete-length model, OverflowError included)
+# ---------------------------------------------------------------------------
+_orig_int_method = _MC.int_method
+_orig_int_to_bytes = _MC.int_to_bytes
+
+
+def int_method(ex, recv, name, args, kwargs):
+    if name == 'bit_length' and isinstance(recv, Sym) and recv.k == 'int' and not args and not kwargs and not ex.quant:
+        x = recv.t
+        K = None
+        for cand in (8, 16, 32, 64, 128, 256, 512):
+            if ex.proves(z3.And(x > -(1 << cand), x < (1 << cand))):
+                K = cand
+                break
+        if K is None:
+            raise Unsupported('int.bit_length of an integer without a provable bound below 2**512')
+        a = z3.If(x >= 0, x, -x)
+        n = z3.Int(ex.fresh_name('bitlen'))
+        ex.add_def(n == z3.Sum([z3.If(a >= (1 << k), 1, 0) for k in range(K)]))
+        ex.add_def(z3.And(n >= 0, n <= K))
+        M.mark_range(ex, n, 0, K)
+        return Sym(n, 'int')
+    return _orig_int_method(ex, recv, name, args, kwargs)
+
+
+def int_to_bytes(ex, v, length=1, byteorder='big', *, signed=False):
+    ln = M.plain(length)
+    if isinstance(ln, Sym) and ln.k == 'int' and not ex.quant and not ex.spec_mode and ex.proves(z3.And(ln.t >= 0, ln.t <= 64)):
+        k = ex.decide([ln.t == j for j in range(65)], 'to_bytes length')
+        return _orig_int_to_bytes(ex, v, k, byteorder, signed=signed)
+    return _orig_int_to_bytes(ex, v, length, byteorder, signed=signed)
+
+
+_MC.int_method = int_method
+_MC.int_to_bytes = int_to_bytes
